@@ -245,12 +245,24 @@ class Runtime:
         tag = spec.get("fid", node)
         items = sorted(args.items())
         vals = []
+        behs = spec.get("behs")
         for j, _o in enumerate(outs):
-            if beh == "inc" and j == 0:
+            if behs:
+                # per-output behaviour of a multi-output node: "append" (list argument plus one new entry, no mutation) or "inc"
+                bj = behs[j]
+                if bj["beh"] == "append":
+                    vals.append(list(args[bj["param"]]) + [mix(tag, "app", sorted((k, canon(v)) for k, v in args.items() if k != bj["param"]))])
+                else:
+                    vals.append(args[bj["param"]] + 1)
+            elif beh == "inc" and j == 0:
                 p = spec["beh_param"]
                 vals.append(args[p] + 1)
             elif beh == "pass" and j == 0:
                 vals.append(args[spec["beh_param"]])
+            elif beh == "append" and j == 0:
+                # accumulator that does NOT mutate: returns its list argument plus one new entry
+                p = spec["beh_param"]
+                vals.append(list(args[p]) + [mix(tag, "app", sorted((k, canon(v)) for k, v in args.items() if k != p))])
             elif beh == "opaque" and j == 0:
                 vals.append(Opaque(mix(tag, "opq", [(k, canon(v)) for k, v in items])))
             elif beh == "const":
